@@ -15,6 +15,9 @@ for sid in sorted(os.listdir(os.path.join(V, "seeded"))):
     title = re.sub(r"\s+", " ", title)[:150]
     keys = m.get("violation_keys", [])
     rules = sorted({"%s/%s" % (k.split("|")[0], k.split("|")[1]) for k in keys})
+    if m.get("obsolete"):
+        rows.append("| %s | %s | %s | %s | %s |" % (sid, m.get("property"), title.replace("|", "/"), "(obsolete)", "no longer breaks the property since repair e43f3d3 (demo passes with the patch)"))
+        continue
     rows.append("| %s | %s | %s | %s | %s |" % (sid, m.get("property"), title.replace("|", "/"), " ".join(m.get("caught_by", [])) or "**none**", ", ".join(rules)))
 tab = "| seed | targets | change (agent's title) | caught by | rules that fire |\n|---|---|---|---|---|\n" + "\n".join(rows)
 p = os.path.join(V, "DESIGN.md")
